@@ -240,7 +240,9 @@ def run_messages(sh, lab, n):
             for _ in range(ch.randint(1, 4)):
                 t = ch.choice(TEXTS[:12])
                 if ch.flip(0.6):
-                    tag = ch.choice(["info", "comment", "question", "error", "s1"])
+                    # s2 / s3 / zz are not in this style set (other formatters of this process know s2 and s3): a tag the
+                    # formatter does not know is text, and all renderings must treat it alike
+                    tag = ch.choice(["info", "comment", "question", "error", "s1", "s1", "s2", "s3", "zz"])
                     inner = ch.choice(TEXTS[:12])
                     if ch.flip(0.3):
                         tag2 = ch.choice(["info", "error", "s1"])
@@ -248,7 +250,9 @@ def run_messages(sh, lab, n):
                     t = "<%s>%s</%s>" % (tag, inner, tag)
                 parts.append(t)
             m2 = "".join(parts)
-            if [t.group(0) for t in TAG_RE.finditer(m2)] == re.findall(r"</?(?:info|comment|question|error|s1)>", m2):
+            if [t.group(0) for t in TAG_RE.finditer(m2)] == re.findall(r"</?(?:info|comment|question|error|s1|s2|s3|zz)>", m2):
+                if re.search(r"<(?:s2|s3|zz)>", m2):
+                    sh.count("one_style_set_messages_with_unknown_tag")
                 a2, p2 = lab.AnsiFormatter(small, True), lab.PlainFormatter(small)
                 try:
                     four = [strip_sgr(a2.format(m2)), p2.format(m2), a2.remove_format(m2), p2.remove_format(m2)]
